@@ -82,4 +82,14 @@ theorem decision_anchors :
     Facts.pex_seed_inbound_guard = "r.config.SeedMode && !e.Src.IsOutbound()" ∧
     Facts.conn_least_ratio_guard = "ratio < leastRatio" := by decide
 
+/-- the accept path's error classification (model: `acceptErrOf`, `acceptRoutineOn`): every stage
+of `upgrade` that a peer's bytes can fail returns `ErrRejected` (no plain `fmt.Errorf` return in
+`upgrade`), a panic in the upgrade goroutine is recovered into `ErrRejected`, and
+`acceptRoutine` continues on `ErrRejected` and panics on an unclassified error -/
+theorem accept_path_anchors :
+    Facts.acc_secretconn_is_rejection = true ∧ Facts.acc_nodeinfo_exchange_is_rejection = true ∧
+    Facts.acc_nodeinfo_invalid_is_rejection = true ∧ Facts.acc_incompatible_is_rejection = true ∧
+    Facts.acc_upgrade_panic_is_rejection = true ∧ Facts.acc_upgrade_plain_error_returns = false ∧
+    Facts.acc_routine_continues_on_rejected = true ∧ Facts.acc_routine_panics_on_other = true := by decide
+
 end Tmv.Expect.C17
